@@ -115,7 +115,8 @@ def case(W, cfg):
     ds = xr.Dataset(coords={"face": np.arange(F), "xc": np.arange(N) + 0.5, "yc": np.arange(N) + 0.5, "t": [0, 1]})
     with warnings.catch_warnings():
         warnings.simplefilter("ignore")
-        grid = xgcm.Grid(ds, coords={"X": {"center": "xc"}, "Y": {"center": "yc"}}, periodic=False, boundary=rule,
+        # a non-zero grid-level fill value: a per-call value (any number, zero included) must win over it
+        grid = xgcm.Grid(ds, coords={"X": {"center": "xc"}, "Y": {"center": "yc"}}, periodic=False, boundary=rule, fill_value=2.5,
                          face_connections={"face": table}, autoparse_metadata=False)
     fv = W.scalar("fv")
     dims = {"f": "face", "y": "yc", "x": "xc", "t": "t"}
